@@ -37,9 +37,9 @@ TRUSTED_BASE = [
     "pickle of an attrs class calls __getstate__/__setstate__ (validated: pickle.dumps/loads histories)",
 ]
 ASSUMPTIONS = [
-    "domain of the theorems: batch_size >= 1, batches None or >= 0, at least one field, all fields with the same number of rows; "
-    "batch_size = 0 raises ValueError in range() and is outside the model; negative batch sizes / batches are modelled "
-    "(Python slice semantics) and exercised by a small malformed stream",
+    "domain of the theorems and of the correspondence: batch_size >= 1, batches None or >= 0, at least one field, all fields with "
+    "the same number of rows; batch_size = 0 raises ValueError in range(); negative batch sizes / batches are not part of the "
+    "property's quantifier and are not exercised (the model totalises them with Python's slice semantics)",
     "replay buffers: every buffer has the keys of the first one, positions/mask are 2-D of equal shape, and a buffer without rows "
     "is not wider than every non-empty buffer (the list model has no width for an empty block)",
     "device/pin_memory/batch_class are pass-through on cpu and not modelled; only cpu is exercised",
@@ -195,7 +195,7 @@ def pick_bs(rng, n):
     return rng.randrange(1, n + 3) if n <= 40 else rng.randrange(n // 30 + 2, n + 3)
 
 
-def gen_file_spec(rng, quick, malformed=False):
+def gen_file_spec(rng, quick):
     n = pick_n(rng, quick)
     big = n > 200
     nf = 1 if big else rng.choice([1, 2, 2, 3, 3, 4])
@@ -215,12 +215,6 @@ def gen_file_spec(rng, quick, malformed=False):
         batches = 0 if rng.random() < 0.3 else nb_full
     else:
         batches = rng.randrange(0, nb_full + 3)
-    if malformed:
-        if rng.random() < 0.5:
-            bs = -rng.randrange(1, 4)
-            batches = rng.choice([None, 1, 2, -1])
-        else:
-            batches = -rng.randrange(1, 4)
     seed = rng.choice([0, 1, 0x12345678, rng.randrange(2 ** 31), rng.randrange(2 ** 62)])
     ops = []
     nops = 1 if big else rng.choice([1, 2, 3, 3, 4, 5, 6])
@@ -549,10 +543,10 @@ def _file_meta(spec, o):
             "seed_state": o["seed_state"], "impl_batches": [e[:3] for e in o["obs"]][:6] if _size_of(spec) < 4000 else "omitted (large)"}
 
 
-def _report(run, cs, meta, clause, extra=None):
+def _report(run, cs, meta, clause, extra=None, model_disagrees=True):
     term = cs.terms[cs.metas.index(meta)]
     view = cs.model_view(term) if _size_of(meta["input"]) < 3000 else "omitted (large case)"
-    rp = {"clause": clause, "input": meta["input"], "observed": {k: v for k, v in meta.items() if k != "input"},
+    rp = {"clause": clause, "model_disagrees": model_disagrees, "input": meta["input"], "observed": {k: v for k, v in meta.items() if k != "input"},
           "model_view": view}
     if extra:
         rp["oracle_detail"] = extra
@@ -560,6 +554,12 @@ def _report(run, cs, meta, clause, extra=None):
 
 
 MAX_REPORT = 6
+
+
+def _size_shards(cs, target=200_000):
+    """choose the shard length so that one cases file carries about `target` bytes of literals"""
+    total = sum(len(t) for t in cs.terms) or 1
+    cs.shard = max(3, min(80, int(len(cs) * target / total)))
 
 
 def correspondence(run):
@@ -574,18 +574,16 @@ def correspondence(run):
 
 def _correspondence(run, rng, tmpdir):
     quick = run.quick
-    n_file = 420 if quick else 8500
-    n_mal = 30 if quick else 300
+    n_file = 450 if quick else 6000
     n_rb = 150 if quick else 1500
     # ---------------- file dataset
     specs = _corpus_specs()
     specs = [s for s in specs if s.get("kind") == "file"] + _pinned_specs()
     specs += [gen_file_spec(rng, quick) for _ in range(n_file)]
-    specs += [gen_file_spec(rng, quick, malformed=True) for _ in range(n_mal)]
     cs = core.Cases(ID, "file", HEADER, FILE_CTYPE, FILE_CHECK, show=FILE_SHOW, shard=(28 if quick else 60))
     seen, nontriv = set(), 0
     dist = {"rows": {}, "fields": {}, "ops": {}, "truncated": 0, "bs_divides": 0, "bs_not_divides": 0, "uint8_fields": 0,
-            "multi_dim_fields": 0, "malformed": 0, "epochs_consumed": 0, "randperm_calls": 0}
+            "multi_dim_fields": 0, "epochs_consumed": 0, "randperm_calls": 0}
     assumption_bad, oracle_hits, crashes = [], [], []
     samples = []
     order = sorted(range(len(specs)), key=lambda i: _size_of(specs[i]))
@@ -617,11 +615,7 @@ def _correspondence(run, rng, tmpdir):
         for k, _ in spec["ops"]:
             dist["ops"][k] = dist["ops"].get(k, 0) + 1
         dist["truncated"] += spec["batches"] is not None
-        if bs >= 1:
-            dist["bs_divides" if n % bs == 0 else "bs_not_divides"] += 1
-        else:
-            dist["malformed"] += 1
-        dist["malformed"] += (spec["batches"] is not None and spec["batches"] < 0 and bs >= 1)
+        dist["bs_divides" if n % bs == 0 else "bs_not_divides"] += 1
         dist["uint8_fields"] += sum(f["dtype"] == "uint8" for f in spec["fields"])
         dist["multi_dim_fields"] += sum(len(f["shape"]) > 1 for f in spec["fields"])
         dist["epochs_consumed"] += sum(1 for e in o["obs"] if e)
@@ -642,6 +636,7 @@ def _correspondence(run, rng, tmpdir):
             oracle_hits.append((meta, hit))
         if len(samples) < 3 and 3 <= n <= 6 and len(spec["fields"]) == 2:
             samples.append({"input": spec, "impl_batches": o["obs"], "randperm": [c[:4] for c in o["calls"]]})
+    _size_shards(cs)
     failing, shard_fail, nshards = cs.run()
     run.oblige(f"correspondence:file-dataset ({nshards} shards, {len(cs)} histories)", not shard_fail, str(shard_fail)[:1500])
     run.oblige("assumed: every observed torch.randperm answer is a permutation and a function of the generator state",
@@ -670,7 +665,7 @@ def _correspondence(run, rng, tmpdir):
         if reported >= MAX_REPORT:
             break
         if meta["hash"] not in failing_h:
-            _report(run, cs, meta, hit[0], hit[1])
+            _report(run, cs, meta, hit[0], hit[1], model_disagrees=False)
             reported += 1
     for spec, err in crashes[:2]:
         run.violation(f"file-crash-{spec_hash(spec)}", {"clause": "no exception", "input": spec, "exception": err})
@@ -715,6 +710,7 @@ def _correspondence(run, rng, tmpdir):
             rhits.append((meta, hit))
         if len(rsamples) < 2 and tot <= 5 and len(set(widths)) > 1:
             rsamples.append({"input": spec, "impl_flat": o["flat"], "perm": o["perm"], "impl_batches": o["obs"]})
+    _size_shards(cr)
     rfail, rshard_fail, rn = cr.run()
     run.oblige(f"correspondence:replay-buffer ({rn} shards, {len(cr)} windows)", not rshard_fail, str(rshard_fail)[:1500])
     run.oblige("assumed: torch.randperm(npos) answers are permutations (replay buffer)", not rass, json.dumps(rass[:2])[:1000])
@@ -739,7 +735,7 @@ def _correspondence(run, rng, tmpdir):
         if reported >= MAX_REPORT:
             break
         if meta["hash"] not in rfh:
-            _report(run, cr, meta, hit[0], hit[1])
+            _report(run, cr, meta, hit[0], hit[1], model_disagrees=False)
             reported += 1
     for spec, err in rcrash[:2]:
         run.violation(f"replay-crash-{spec_hash(spec)}", {"clause": "no exception", "input": spec, "exception": err})
